@@ -9,6 +9,7 @@ import (
 	"encoding/json"
 	"errors"
 	"fmt"
+	"reflect"
 	"sort"
 	"strings"
 	"time"
@@ -39,9 +40,9 @@ type ABranch struct {
 	Target string      // "name" or "@var"
 }
 type ANode struct {
-	Act      []Op // nil: no action
-	Native   bool // render action and guards as native Go actions
-	Partial  bool // native only: on failure return a partial execution together with the error
+	Act      []Op   // nil: no action
+	Native   bool   // render action and guards as native Go actions
+	Partial  bool   // native only: on failure return a partial execution together with the error
 	BType    string // "", "message", "bindings"; "" with NoBranching => no branching at all
 	NoBr     bool
 	Branches []ABranch
@@ -87,6 +88,8 @@ func JS(ops []Op) string {
 			fmt.Fprintf(&b, "return %s;\n", js(o.V))
 		case "retnull":
 			b.WriteString("return null;\n")
+		case "nullif":
+			fmt.Fprintf(&b, "if (%s in _.bindings && _.bindings[%s] === %s) { return null; }\n", js(o.K), js(o.K), js(o.V))
 		case "throw":
 			b.WriteString("throw 'boom';\n")
 		case "loop":
@@ -159,6 +162,11 @@ func Native(ops []Op, partial bool) func(context.Context, match.Bindings, core.S
 			case "retnull":
 				exe.Bs = nil
 				return exe, nil
+			case "nullif":
+				if v, have := cur[o.K]; have && reflect.DeepEqual(v, o.V) {
+					exe.Bs = nil
+					return exe, nil
+				}
 			case "throw", "emitbad", "retgetter", "throwobj":
 				return fail(errBoom)
 			case "retscalar", "retcyclic":
@@ -240,6 +248,8 @@ func EncOps(ops []Op) interface{} {
 			a = append(a, T{"emitb", o.K})
 		case "set":
 			a = append(a, T{"set", o.K, enc.V(o.V)})
+		case "nullif":
+			a = append(a, T{"nullif", o.K, enc.V(o.V)})
 		case "setfrom":
 			a = append(a, T{"setfrom", o.K, o.K2})
 		case "del", "mutnested":
@@ -323,7 +333,7 @@ func DecOps(x interface{}) []Op {
 			op.V = enc.D(o[1])
 		case "emitb", "del", "mutnested":
 			op.K = o[1].(string)
-		case "set":
+		case "set", "nullif":
 			op.K, op.V = o[1].(string), enc.D(o[2])
 		case "setfrom":
 			op.K, op.K2 = o[1].(string), o[2].(string)
